@@ -3,4 +3,5 @@ package batchers
 const (
 	zzFileLen = 3
 	zzFiles   = 2
+	zzRacePreempt = 2
 )
